@@ -104,7 +104,23 @@ def classify_gz(blob, b):
     return nc, (1 if data and not data.endswith(b"\n") else 0)
 
 
-CFGS = [dict(p=1, mt=0, ip=True), dict(p=1, mt=1, ip=True), dict(p=1, mt=2, ip=True)]
+CFGS = [dict(p=1, mt=0, ip=True), dict(p=1, mt=1, ip=True), dict(p=1, mt=2, ip=True),
+        dict(p=2, mt=1, ip=False, mc=1), dict(p=2, mt=0, ip=False, mc=0)]      # the last two: resumed on the virtual multi-process layer
+
+
+def resume(shape, side, f, cfg, sseed):
+    """Re-construct the experiment and run it again on the file left by the kill."""
+    if cfg["ip"]:
+        return explib.run_inprocess(explib.build(shape, side=side), f, mt=cfg["mt"])
+    from coba.experiments import Experiment
+    from .. import vmp, vsched
+    def go():
+        explib.quiet_ctx()
+        return Experiment(explib.build(shape, side=side)).run(f, quiet=True, processes=cfg["p"], maxchunksperchild=cfg["mc"], maxtasksperchunk=cfg["mt"])
+    out, _ = vmp.run_scheduled(go, vsched.random_policy(random.Random(sseed)))
+    if out["verdict"] != "ok": raise RuntimeError("resumed multi-process run: %s" % out["verdict"])
+    if "error" in out: raise out["error"]
+    return out["value"]
 
 
 def run(ctx):
@@ -133,12 +149,12 @@ def run(ctx):
                 cfg = CFGS[rng.randrange(len(CFGS))]
                 nc, torn = classify(ends, b) if kind == "plain" else classify_gz(blob, b)
                 case = dict(shape=si, kind=kind, cut=b, size=len(blob), complete=nc, torn=torn, cfg=cfg)
-                ctx.case(json.dumps([si, kind, nc, torn, cfg["mt"]]))
+                ctx.case(json.dumps([si, kind, nc, torn, cfg["mt"], cfg["p"]]))
                 f = os.path.join(d, "cut.log" + (".gz" if kind == "gz" else "")); side = os.path.join(d, "side.txt")
                 open(f, "wb").write(blob[:b]); open(side, "w").close()
                 sigbase = "%s:%s" % (kind, "between-records" if torn == 0 and 0 < b else ("empty-file" if b == 0 else ("partial-record" if torn == 1 else "record-without-terminator")))
                 try:
-                    res = explib.run_inprocess(explib.build(shape, side=side), f, mt=cfg["mt"])
+                    res = resume(shape, side, f, cfg, rng.randrange(1 << 30))
                     got = explib.result_digest(res)
                 except BaseException as e:
                     ctx.violation("unusable:" + sigbase, "re-running on the file left by a kill at byte %d/%d raised %s: %s" % (b, len(blob), type(e).__name__, str(e)[:150]), case)
@@ -160,7 +176,7 @@ def run(ctx):
                             end="crash", torn=(0 if not torn else (K if torn == 2 else 1)), tornk=(keys[nc] if torn else ["none"]))
                 # a failing triple is evaluated (side channel) but leaves no record: run 1 evaluated those that precede its last record
                 run1["evals"] = evals_before(evalseq, keys, nc + (1 if torn else 0))
-                run2 = dict(cfg=cfg, recs=fkeys[kept:], evals=evals, end="done", torn=0, tornk=["none"])
+                run2 = dict(cfg=dict(p=cfg["p"], mt=cfg["mt"], ip=cfg["ip"]), recs=fkeys[kept:], evals=evals, end="done", torn=0, tornk=["none"])
                 traces.append(dict(shape=dict(tr=[list(t) for t in shape["tr"]], ch=shape["ch"], fail=[list(t) for t in shape["fail"]]), runs=[run1, run2]))
                 meta.append(case)
     if traces: ctx.sample(traces[len(traces) // 3], limit=1)
@@ -168,7 +184,7 @@ def run(ctx):
     for i, reason, pos in rej:
         ctx.violation("trace-rejected:%s" % meta[i]["kind"], "%s (position code %s) history=%s" % (reason, pos, json.dumps(traces[i]["runs"])[:600]), dict(meta[i], trace=traces[i]))
     real_kills(ctx, rng)
-    ctx.assumptions += ["flushed bytes survive a kill (no filesystem-level loss)", "resumes run in-process with maxtasksperchunk in {0,1,2}; multi-process resumes are exercised by C01's machinery on the same code path",
+    ctx.assumptions += ["flushed bytes survive a kill (no filesystem-level loss)", "resumes run in-process (maxtasksperchunk 0,1,2) and on the virtual multi-process layer (2 processes) under seeded schedules",
                         "a crash of run 1 is realised by truncating the log of an uninterrupted run (every byte prefix is a state a kill can leave, since each record is flushed before the next is produced); real SIGKILLs confirm this for a few instants"]
 
 
